@@ -61,10 +61,16 @@ def run(tier):
         o = os.path.join(wd, "sweep_%s.json" % cfg)
         conform(cfg, ["prims-sweep-c05", tf, o, ck.seed, nrand if cfg == "stable" else 20000, 1000], timeout=3400)
         _merge(ck, json.load(open(o)), "" if cfg == "stable" else "[%s] " % cfg)
+    # the composition of Dryoc.tla with dryoc on one side and libsodium on the other
+    d = run_tlc("Dryoc", workers=2, xss="512m", coverage=False, timeout=600)
+    ck.require_tlc_ok(d, "Dryoc.tla (StreamsMeet, DirectionsIndependent, BoxKeysMeet, Eavesdropper)")
+    o = os.path.join(wd, "e2e.json")
+    conform("stable", ["e2e", o, ck.seed, 2000 if thorough else 200])
+    _merge(ck, json.load(open(o)), "")
     ck.cov["distinct_nontrivial"] = len(J) + nrand
     ck.cov["rule"] = ("(a) %d (scalar, point) rows evaluated by TLC from spec/ref/X25519.tla (RFC 7748 ladder): all low-order encodings, u in {0,1,2,3,5,9,p-1,p,p+1,p+9,2^255-1} with and without bit 255, RFC vectors, pseudo-random encodings: dryoc = TLA+ = libsodium; "
                       "(b) dryoc = libsodium on %d uniformly random (scalar, encoding) pairs, the RFC iteration (1000 steps), 22 special encodings x 6 scalars; "
-                      "(c) Kx.tla table (role x peer class): session keys equal libsodium's, mirror, low-order peers refused in both roles, classic and object API; beforenm and precalculated keys equal libsodium's" % (len(J), nrand))
+                      "(d) Dryoc.tla composition: key exchange between dryoc and libsodium, then a secret stream in each direction, precomputed box keys and a sealed box across the two libraries; (c) Kx.tla table (role x peer class): session keys equal libsodium's, mirror, low-order peers refused in both roles, classic and object API; beforenm and precalculated keys equal libsodium's" % (len(J), nrand))
     ck.assumptions += ["curve arithmetic lives in curve25519-dalek; checked end to end only", "random pairs are seeded; ~87% lie off the prime-order subgroup"]
     return ck.finish()
 
